@@ -39,7 +39,8 @@ func (w *World) attachedOrPending(exclude ...string) (total, trunk, rdma, second
 			continue
 		}
 		inst := e.Instance
-		if inst == "" {
+		if inst == "" && w.pendingSince[id] == w.reconciles {
+			// created in this very pass and about to be attached
 			inst = w.pendingInstance[id]
 		}
 		if inst != instanceID {
@@ -93,7 +94,23 @@ func (w *World) quotaOnCreate(nio *aliyunClient.NetworkInterfaceOptions, sameReq
 	}
 }
 
-func (w *World) quotaOnAttach(inst string) {}
+func (w *World) quotaOnAttach(inst, self string) {
+	w.run.Eval()
+	if inst != instanceID || !w.quotaJudged() {
+		return
+	}
+	n := 0
+	for _, id := range w.cloud.order {
+		e := w.cloud.enis[id]
+		if e == nil || id == self || e.Type == aliyunClient.ENITypePrimary || e.Instance != instanceID || e.Tags["cluster"] != "c1" {
+			continue
+		}
+		n++
+	}
+	if n+1 > w.cfg.Adapters-1 {
+		w.run.Violate("C08", "quota", "attach-over-adapter-limit", "AttachNetworkInterface(%s) with %d secondary interfaces attached; the node allows %d", self, n, w.cfg.Adapters-1)
+	}
+}
 
 func (w *World) quotaOnAssign(e *cENI, n, alreadyThere int, v6 bool) {
 	w.run.Eval()
@@ -103,6 +120,9 @@ func (w *World) quotaOnAssign(e *cENI, n, alreadyThere int, v6 bool) {
 	have, lim := len(e.V4), w.cfg.IPv4Per
 	if v6 {
 		have, lim = len(e.V6), w.cfg.IPv6Per
+	}
+	if alreadyThere > 0 {
+		w.run.Probe("quota-judged-without-unacknowledged-addresses")
 	}
 	if have+n-alreadyThere > lim {
 		w.run.Violate("C08", "quota", "assign-over-ip-per-adapter", "assign on %s: %d present + %d requested > limit %d (v6=%v)", e.ID, have, n, lim, v6)
@@ -295,6 +315,10 @@ func (w *World) conservation(node *networkv1beta1.Node) {
 			// the create call itself reported an error after taking effect and was never
 			// retried with the same parameters: the controller never learnt the id
 			fp += "@create-failed-after-effect"
+		} else if w.cloud.deleteFailed[id] && !w.everRecorded[id] {
+			// the rollback's delete failed and the write that was to record the interface for
+			// deletion failed as well: nothing remembers it
+			fp += "@rollback-delete-and-record-write-both-failed"
 		}
 		w.run.Violate("C08", "rollback", fp, "interface %s (status %s, instance %q) was created by the controller %s ago and is neither recorded nor deleted", id, e.Status, e.Instance, age.Round(time.Second))
 	}
@@ -375,6 +399,72 @@ func (w *World) knownCycleCause(node *networkv1beta1.Node) string {
 	}
 	if w.cfg.MinPool > 0 && rdmaIdle > w.cfg.MaxPool-w.cfg.MinPool {
 		return "@idle-rdma-addresses-exceed-band"
+	}
+	// K3a: the reserve is refilled interface by interface in sequence: an interface holding fewer
+	// idle addresses than the demand gets more although the following interfaces hold enough, the
+	// surplus is trimmed at the next collection, and so on (which interface comes first among
+	// equals changes from pass to pass).
+	if w.cfg.MinPool > 0 {
+		// precondition: the reserve can sit on one interface while another one has room
+		type st struct{ room, idle bool }
+		var pool []st
+		for _, ni := range node.Status.NetworkInterfaces {
+			if ni.Status != aliyunClient.ENIStatusInUse || ni.NetworkInterfaceTrafficMode == networkv1beta1.NetworkInterfaceTrafficModeHighPerformance {
+				continue
+			}
+			var x st
+			for _, f := range []struct {
+				on  bool
+				m   map[string]*networkv1beta1.IP
+				per int
+			}{{w.cfg.v4(), ni.IPv4, w.cfg.IPv4Per}, {w.cfg.v6(), ni.IPv6, w.cfg.IPv6Per}} {
+				if !f.on {
+					continue
+				}
+				for _, ip := range f.m {
+					if ip != nil && ip.PodID == "" && ip.Status == networkv1beta1.IPStatusValid {
+						x.idle = true
+					}
+				}
+				if len(f.m) < f.per {
+					x.room = true
+				}
+			}
+			pool = append(pool, x)
+		}
+		for a := range pool {
+			for b := range pool {
+				if a != b && pool[a].room && pool[b].idle {
+					return "@reserve-split-over-interfaces"
+				}
+			}
+		}
+	}
+	// K3c: in dual stack the reserve is refilled per family and per interface in sequence (an
+	// interface without an idle IPv6 address gets one although the next interface has one), while
+	// trimming counts IPv4 only (primary addresses included) and then removes from both families.
+	// With a reserve to keep (min > 0) and interfaces whose idle IPv4 and IPv6 counts differ, the
+	// two never agree.
+	if w.cfg.v4() && w.cfg.v6() && w.cfg.MinPool > 0 {
+		for _, ni := range node.Status.NetworkInterfaces {
+			if ni.Status != aliyunClient.ENIStatusInUse {
+				continue
+			}
+			i4, i6 := 0, 0
+			for _, ip := range ni.IPv4 {
+				if ip != nil && ip.PodID == "" && ip.Status == networkv1beta1.IPStatusValid {
+					i4++
+				}
+			}
+			for _, ip := range ni.IPv6 {
+				if ip != nil && ip.PodID == "" && ip.Status == networkv1beta1.IPStatusValid {
+					i6++
+				}
+			}
+			if i4 != i6 {
+				return "@dual-stack-idle-imbalance"
+			}
+		}
 	}
 	return ""
 }
